@@ -363,7 +363,7 @@ class Ctx:
     def __init__(self, prop, tier, seed):
         self.prop, self.tier, self.seed = prop, tier, seed
         self.t0 = time.time()
-        self.work = os.path.join(CACHE, "work", prop)
+        self.work = os.path.join(CACHE, "work", prop if tier == "quick" else prop + "_" + tier)
         shutil.rmtree(self.work, ignore_errors=True)
         os.makedirs(self.work, exist_ok=True)
         self.violations = []   # (kind, text, replay_path)
